@@ -103,6 +103,50 @@ Section Generic.
     - apply neutralM_bind; [apply neutralM_emit, H|intro]. apply neutralM_ret.
   Qed.
 
+  (* control traffic (requests sent through a handle, and their replies) ignored in every state *)
+  Definition ign_ctl : Prop := (forall id s q, step q (ARequest id s) = Some q) /\ (forall id r q, step q (AReply id r) = Some q).
+
+  Lemma T_after_event (P : S -> Prop) b : ign_ctl -> T P (after_event b) (fun _ => P).
+  Proof.
+    intros [Hq Hr] q0 e q Hm Hp. exists q.
+    unfold mst, after_event in *.
+    destruct (c_inject (e_cs e)) as [|[k src] rest]; [split; [exact Hm|exact Hp]|].
+    destruct ((k <=? c_evn (e_cs e))%N && negb b); [|split; [exact Hm|exact Hp]].
+    destruct (c_incheck (e_cs e)); cbn [fst snd upd_trace set_cs e_trace rev]; (split; [|exact Hp]).
+    - rewrite <- app_assoc, runmon_app, Hm. cbn [List.app runmon]. rewrite Hq, Hr. reflexivity.
+    - rewrite runmon_app, Hm. cbn [runmon]. rewrite Hq. reflexivity.
+  Qed.
+
+  Lemma T_yield (ev : sm_event) (P : S -> Prop) (Q : unit -> S -> Prop) :
+    ign_ctl -> (forall q, P q -> exists q', step q (AEvent ev) = Some q' /\ Q tt q') -> T P (yield_ ev) Q.
+  Proof.
+    intros Hc H. unfold yield_. eapply triple_bind with (R := Q); [apply triple_emit; exact H|]. intros [].
+    eapply triple_conseq; [apply (T_after_event (Q tt) _ Hc)|auto|]. intros [] q Hq. exact Hq.
+  Qed.
+
+  Lemma neutralM_yield (ev : sm_event) : ign_ctl -> neutral (AEvent ev) -> neutralM (yield_ ev).
+  Proof.
+    intros Hc Hn P HP. apply T_yield; [exact Hc|]. intros q Hq. exists q. split; [apply Hn, HP, Hq|exact Hq].
+  Qed.
+
+  Lemma runmon_replies q l : ign_ctl ->
+    runmon step q (map (fun x : N * isource => AReply (fst x) AlreadyRunning) l) = Some q.
+  Proof. intros [_ Hr]. induction l as [|x r IH]; cbn [map runmon]; [reflexivity|]. rewrite Hr. exact IH. Qed.
+
+  Lemma T_enter_check (P : S -> Prop) : ign_ctl -> T P enter_check (fun _ => P).
+  Proof.
+    intros Hc q0 e q Hm Hp. exists q. split; [|exact Hp].
+    unfold mst, enter_check in *. cbn [snd upd_trace set_cs e_trace].
+    rewrite rev_app_distr, rev_involutive, runmon_app, Hm. apply runmon_replies. exact Hc.
+  Qed.
+
+  Lemma silent_pop_queued : silent pop_queued.
+  Proof. intro e. unfold pop_queued. destruct (c_inq (e_cs e)); reflexivity. Qed.
+  Lemma silent_set_incheck b : silent (set_incheck b).
+  Proof. intro e. reflexivity. Qed.
+  Lemma silent_take_upgrade : silent take_upgrade.
+  Proof. intro e. reflexivity. Qed.
+
   (* helpers shared by the per-monitor proofs *)
   Lemma T_pre_pure {A} (P : S -> Prop) (phi : Prop) (m : M A) Q :
     (phi -> T P m Q) -> T (fun q => P q /\ phi) m Q.
@@ -141,6 +185,14 @@ Section Generic.
   Proof. intro e. unfold pop_stim. destruct (e_stim e); reflexivity. Qed.
   Lemma silent_next_ctl : silent next_ctl.
   Proof. intro e. reflexivity. Qed.
-  Lemma silent_do_outer_select roles : silent (do_outer_select roles).
-  Proof. intro e. unfold do_outer_select. destruct (outer_select (e_stim e) roles (e_ctl e)) as [[[x r] c]|]; reflexivity. Qed.
+  Lemma T_do_outer_select roles (P : S -> Prop) : ign_ctl -> T P (do_outer_select roles) (fun _ => P).
+  Proof.
+    intros [Hq Hr]. unfold do_outer_select.
+    eapply triple_bind; [apply triple_silent, silent_pop_queued|]. intros [[id src]|]; [apply triple_ret; auto|].
+    intros q0 e q Hm Hp. exists q. unfold mst in *.
+    destruct (outer_select (e_stim e) roles (e_ctl e)) as [[[[[src id]|] r] c]|]; cbn [fst snd upd_trace set_stim e_trace rev].
+    - split; [rewrite runmon_app, Hm; cbn [runmon]; rewrite Hq; reflexivity|exact Hp].
+    - split; [exact Hm|exact Hp].
+    - split; [exact Hm|exact I].
+  Qed.
 End Generic.
